@@ -136,6 +136,10 @@ func allScenarios(tier string) []*Scenario {
 	// A's request spans two batches, the second shared with B; A may leave with a response unconsumed
 	ss.add(Scenario{Name: "D7-cancel-spanning", Signal: "traces", S: 4, M: 4, Timeout: T,
 		Callers: []CallerSpec{{Label: "A", Cancellable: true, Reqs: []Shape{simple("traces", "A", 6)}}, {Label: "B", Reqs: []Shape{simple("traces", "B", 2)}}}})
+	// the same under one export permit, with a later caller whose items depend on the permit coming back
+	ss.add(Scenario{Name: "D7-cancel-spanning-k1", QB: 1, TB: 2, Signal: "traces", S: 4, M: 4, Timeout: T, K: 1, ShutdownAt: 4 * T,
+		Callers: []CallerSpec{{Label: "A", Cancellable: true, Reqs: []Shape{simple("traces", "A", 6)}}, {Label: "B", Reqs: []Shape{simple("traces", "B", 2)}},
+			{Label: "C", ArriveAt: 2 * T, Reqs: []Shape{simple("traces", "C", 1)}}}})
 	ss.add(Scenario{Name: "D7-cancel-early", Signal: "traces", S: 4, Timeout: T, Early: true,
 		Callers: []CallerSpec{{Label: "A", Cancellable: true, Reqs: []Shape{simple("traces", "A", 2)}}, {Label: "B", Reqs: []Shape{simple("traces", "B", 2)}}}})
 	ss.add(Scenario{Name: "D7-cancel-one-split", Signal: "traces", S: 2, M: 2, Timeout: T, SinkFail: true,
@@ -247,6 +251,14 @@ func addContexts(ss *scenarioSet, thorough bool) {
 	mk("D9-three-shared/XXY", func(s *Scenario) {
 		s.QB, s.TB = 1, 2
 		s.Callers = []CallerSpec{{Label: "A", Cancellable: true, Reqs: one("A", 1)}, {Label: "B", ShareCtx: 1, Reqs: one("B", 1)}, {Label: "C", Reqs: one("C", 2)}}
+	})
+	// two contributors are different spans of one trace (one upstream operation fanning out), the third is unrelated
+	mk("D9-same-trace/1+1+2", func(s *Scenario) {
+		s.QB, s.TB = 1, 2
+		s.Callers = []CallerSpec{{Label: "A", TraceGroup: 1, Reqs: one("A", 1)}, {Label: "B", TraceGroup: 1, Reqs: one("B", 1)}, {Label: "C", Reqs: one("C", 2)}}
+	})
+	mk("D9-same-trace/2+2", func(s *Scenario) {
+		s.Callers = []CallerSpec{{Label: "A", TraceGroup: 1, Cancellable: true, Reqs: one("A", 2)}, {Label: "B", TraceGroup: 1, Reqs: one("B", 2)}}
 	})
 	mk("D9-single/4", func(s *Scenario) {
 		s.Callers = []CallerSpec{{Label: "A", Cancellable: true, Reqs: one("A", 4)}}
